@@ -344,13 +344,13 @@ fn fam_5(thorough: bool) -> Vec<Case> {
     macro_rules! td_case {
         ($k:ident, $name:expr) => {
             for &delta in &[10.0f64, 100.0, 1000.0] {
-                for &(backlog, wmode) in &[(0usize, 0usize), (100, 0), (10_000, 0), (100, 1), (0, 2), (100, 3), (10_000, 1), (10, 4), (100, 5), (0, 6), (100, 7), (0, 8)] {
-                    // weights: 0 = unit, 1 = all 2.0, 2 = all 0.5, 3 = cycling 1..=5, 6 = all 2^-40 (the total stays below 1), 8 = all 1e-320 (subnormal: the total stays below 1e-308),
+                for &(backlog, wmode) in &[(0usize, 0usize), (100, 0), (10_000, 0), (100, 1), (0, 2), (100, 3), (10_000, 1), (10, 4), (100, 5), (0, 6), (100, 7), (0, 8), (0, 9), (100, 9)] {
+                    // weights: 0 = unit, 1 = all 2.0, 2 = all 0.5, 3 = cycling 1..=5, 6 = all 2^-40 (the total stays below 1), 8 = all 1e-320 (subnormal: the total stays below 1e-308), 9 = unit weights on values x 1e305 (same sign, up to 1e308: the sum of any two overflows),
                     // 7 = cycling 2^-40, 2^40, 0.75 (the documented bound is on the number of centroids, whatever the weights)
                     let base = live();
             let mut noise = 0i64;
                     let mut d = TDigest::new($k::new(delta), backlog);
-                    let mut c = Case { name: format!("TDigest {}(delta={}) backlog={} weights={}", $name, delta, backlog, ["unit", "2.0", "0.5", "1..5", "unit, read after every insert", "unit, cdf after every insert", "2^-40", "2^-40, 2^40, 0.75", "1e-320 (subnormal)"][wmode]), documented: 16.0 * (delta + 3.0 + backlog as f64 + 1.0), points: vec![], flat: vec![] };
+                    let mut c = Case { name: format!("TDigest {}(delta={}) backlog={} weights={}", $name, delta, backlog, ["unit", "2.0", "0.5", "1..5", "unit, read after every insert", "unit, cdf after every insert", "2^-40", "2^-40, 2^40, 0.75", "1e-320 (subnormal)", "unit, values x 1e305 (pairwise sums overflow)"][wmode]), documented: 16.0 * (delta + 3.0 + backlog as f64 + 1.0), points: vec![], flat: vec![] };
             noise += c.name.capacity() as i64;
                     rec(&mut c, &mut noise, base, "constructed".into());
                     let mut n = 0usize;
@@ -375,6 +375,7 @@ fn fam_5(thorough: bool) -> Vec<Case> {
                                 }
                                 6 => d.insert_weighted(x, 2f64.powi(-40)),
                                 8 => d.insert_weighted(x, 1e-320),
+                                9 => d.insert(x * 1e305),
                                 7 => d.insert_weighted(x, [2f64.powi(-40), 2f64.powi(40), 0.75][n % 3]),
                                 _ => {
                                     d.insert(x);
@@ -387,7 +388,13 @@ fn fam_5(thorough: bool) -> Vec<Case> {
                         if runaway {
                             break;
                         }
-                        let _ = d.quantile(0.5);
+                        // a read merges the backlog; with overflowing centroid sums (mode 9) the merging read is count(): quantile's
+                        // interpolation between infinite means is the known finding recorded under C15, not a matter of memory
+                        if wmode == 9 {
+                            let _ = d.count();
+                        } else {
+                            let _ = d.quantile(0.5);
+                        }
                         rec(&mut c, &mut noise, base, format!("after {} inserts + read", len));
                     }
                     d.clear();
